@@ -41,6 +41,7 @@ type c18Args struct {
 	Sched  []c05Scenario `json:",omitempty"`
 	Stall  bool `json:",omitempty"` // the stalled-subscriber cases
 	Root   []Action `json:",omitempty"` // history replayed before the search starts (subscriber turnover)
+	Emb    bool     `json:",omitempty"` // embedded-subscriber facet: Shard = first operation, Depth = sequence length
 }
 
 func c18Alphabet() []Action {
@@ -165,6 +166,10 @@ func (c18Check) Units(tier string, seed int64) []Unit {
 		b, _ := json.Marshal(c18Args{Shard: 0, Shards: 1, Depth: depth - 1, Root: root})
 		us = append(us, Unit{Name: fmt.Sprintf("turnover-%d-depth%d", i, depth-1), Args: b})
 	}
+	for i := range c18EmbOps() {
+		b, _ := json.Marshal(c18Args{Emb: true, Shard: i, Depth: depth})
+		us = append(us, Unit{Name: fmt.Sprintf("embedded-subscriber-len%d-first%d", depth, i), Args: b})
+	}
 	bound := 2
 	if tier == "thorough" {
 		bound = 3
@@ -204,6 +209,10 @@ func (c18Check) Run(u Unit, w *Worker) UnitResult {
 	res := UnitResult{Stats: map[string]int64{}}
 	if a.Stall {
 		c18Stalled("C18", w, &res)
+		return res
+	}
+	if a.Emb {
+		c18Embedded(a.Shard, a.Depth, w, &res)
 		return res
 	}
 	if len(a.Sched) > 0 {
